@@ -9,7 +9,7 @@ use crate::treecase::{expect, first_mismatch_with, record_tree_violation};
 use exmex::Express;
 use serde_json::json;
 
-const PATHS: &[&str] = &["flat", "flat_wo", "flat_recompiled", "wo_compiled_twice", "deep", "wo2deep"];
+const PATHS: &[&str] = &["flat", "flat_wo", "flat_recompiled", "wo_compiled_twice", "wo_eval_compile_eval", "deep", "wo2deep"];
 
 /// counts operator applications that happen while parsing (= folding events)
 fn fold_events(text: &str, st: &mut Stats) {
